@@ -41,6 +41,10 @@ def main(argv=None):
         except ImportError as e:
             raise AnalysisError('no rule module for %s (%s)' % (prop, e))
         mod.check(run, repo)
+        # functions analysed = what the interpreter actually entered (names are not assumed, private helpers may be
+        # renamed or moved without the evidence going stale)
+        from pmv.xlate import VISITED
+        run.fn(*sorted(VISITED))
         if args.tier == 'thorough' and not args.no_selftest and replay is None:
             from pmv.selftest import selftest
             selftest(run, repo, mod)
